@@ -1,5 +1,6 @@
 import EpdVerif.Spec
 import EpdVerif.Scenario
+import EpdVerif.Aliases
 /-!
 # Oracles for the driver properties, evaluated on a trace (the implementation's or the model's)
 
@@ -344,9 +345,19 @@ def c07 (p : Panel) (a : List String) (bg : Nat) (before after : Ctrl) (primary 
   let wbp := rowBytes p primary.enc
   let r1 := if !planes.contains primary.plane then
       [s!"site={site} reason=primary-plane-not-addressed got=planes{planes} want=plane{primary.plane}"]
-    -- tri-colour panels: what a chromatic background leaves in the black/white plane depends on
-    -- the panel's BWRBIT convention; only uniformity / completeness is required there
-    else if p.colors = 3 ∧ bg = 2 then []
+    -- tri-colour panels: what a chromatic background leaves in the black/white plane is what the
+    -- panel's own Display alias holds there for a uniformly chromatic frame (BWRBIT convention,
+    -- `TriColor.bitmask`): 0x00 with BWRBIT, 0xFF without; a panel without a tri-colour alias is
+    -- judged on uniformity / completeness only
+    else if p.colors = 3 ∧ bg = 2 then
+      match aliases.find? (fun al => al.panel == p.name ∧ al.kind == "TriColor") with
+      | none => []
+      | some al =>
+        let wantC : UInt8 := (primary.enc.apply [if al.bwr then 0x00 else 0xFF, if al.bwr then 0x00 else 0xFF]).headD 0
+        match regionUniform p.name after primary.plane wbp p.height with
+        | some v => if v = wantC then [] else
+            [s!"site={site} reason=primary-differs-from-uniform-frame got={hexByte v} want={hexByte wantC} bg={bg}"]
+        | none => []
     else match regionUniform p.name after primary.plane wbp p.height with
       | some v => if v = want then [] else
           [s!"site={site} reason=primary-differs-from-uniform-frame got={hexByte v} want={hexByte want} bg={bg}"]
